@@ -23,6 +23,10 @@ func TestC08(t *testing.T) {
 			req := c.Request("run")
 			req.Validate = true
 			ans := RunCase(req)
+			if ok, _ := c.Extra["reject_ok"].(bool); ok && ans.PrepareErr != "" {
+				st.Record(c, true, []string{"rejected-at-prepare(acceptable)"})
+				return "" // hand-written regression case: rejecting the workflow is a correct answer too
+			}
 			if ans.PrepareErr != "" {
 				return "generated program rejected by Prepare (generator soundness): " + short(ans.PrepareErr, 400)
 			}
